@@ -99,10 +99,15 @@ impl Parser for Identifier {
     fn parse<'a>(this: Option<&Self>, input: TokenStream<'a>) -> IResult<'a, Self> {
         affected(
             this,
-            map(info(literals::ident), |(ident, info)| Self {
-                value: ident.to_string(),
-                info,
-            }),
+            // The comments in front of an identifier are not part of it.
+            // Otherwise the range of a name would start at the comment.
+            map(
+                preceded(many0(comment), info(literals::ident)),
+                |(ident, info)| Self {
+                    value: ident.to_string(),
+                    info,
+                },
+            ),
         )(input)
     }
 }
